@@ -83,6 +83,7 @@ class Verifier(InspectMixin, QuantMixin, LoopMixin, ExprMixin, CallMixin, StmtMi
         self.field_types: Dict[Tuple[str, str], str] = {}
         self.oracle_methods: Dict[str, Dict[str, Any]] = {}
         self.class_invariants: Dict[str, str] = {}      # external class -> assumed invariant (spec function)
+        self.comp_matched: set = set()
 
     def reset_path(self, decisions):
         super().reset_path(decisions)
@@ -894,6 +895,7 @@ class Verifier(InspectMixin, QuantMixin, LoopMixin, ExprMixin, CallMixin, StmtMi
                 continue
             if 'has_if' in pat and bool(gen.ifs) != bool(pat['has_if']):
                 continue
+            self.comp_matched.add(cname)
             env = dict(self.frame_env(fr))
             n = z3.Length(S)
             where = f'comprehension `{ast.unparse(e)[:60]}` ({cname})'
